@@ -389,3 +389,106 @@ Definition explain (up : bool) (rows : list row) (aliases : list arow) (c : call
   (option_map (fun m => model_call m c) (load up rows aliases), spec_call rows aliases c, wf_file rows aliases).
 
 Definition run_cases (cs : list case) : list Z := map run_case cs.
+
+(* ------------------------------------------------------------------ M with the facts of the source as parameters
+   (round 2): what translate/c07.py reads off the ast of set_maskbits / sdss_flagval / sdss_flagname /
+   sdss_flagexist.  std_cfg is what the theorems are about; C07/Code.v instantiates cfg from Generated/Maskbits.v and
+   Props.v carries the obligations that the source has the standard values.  *)
+Record cfg := mkcfg {
+  c_load_upper : bool;     (* set_maskbits upper-cases the names it stores *)
+  c_scan_bits : nat;       (* range(N) of the bit scan in sdss_flagname *)
+  c_acc_add : bool;        (* flagvalue += ...   (false: |=) *)
+  c_acc_u64 : bool;        (* np.uint64 arithmetic (false: np.int64) *)
+  c_first : bool;          (* f[0][0]: first label carrying the bit (false: f[-1][0], the last) *)
+  c_upper_group : bool;    (* flagname.upper() in the three query functions *)
+  c_upper_labels : bool;   (* b.upper() on the labels in sdss_flagval / sdss_flagexist *)
+  c_exist_all : bool       (* l = sum(which) == len(which)  (false: any(which)) *)
+}.
+Definition std_cfg : cfg := mkcfg true 64 true true true true true true.
+
+Definition swrap64 (z : Z) : Z := (z + 2 ^ 63) mod two64 - 2 ^ 63.
+Definition wrap_c (c : cfg) (z : Z) : Z := if c_acc_u64 c then z mod two64 else swrap64 z.
+
+Fixpoint flagval_loop_c (c : cfg) (grp : option group) (labels : list str) (acc : Z) : res :=
+  match labels with
+  | [] => RVal acc
+  | l :: t =>
+      match grp with
+      | None => RKeyError
+      | Some g =>
+          match dget l g with
+          | None => RKeyError
+          | Some b => if b <? 0 then ROther
+                      else flagval_loop_c c grp t
+                             (wrap_c c (if c_acc_add c then acc + wrap_c c (2 ^ b) else Z.lor acc (wrap_c c (2 ^ b))))
+          end
+      end
+  end.
+
+Definition flagval_c (c : cfg) (m : table) (g : str) (labels : list str) : res :=
+  flagval_loop_c c (dget (norm (c_upper_group c) g) m) (map (norm (c_upper_labels c)) labels) 0.
+
+Definition set_bits_c (c : cfg) (v : Z) : list Z := filter (Z.testbit v) (zseq 0 (c_scan_bits c)).
+
+Definition label_with_bit (c : cfg) (b : Z) (g : group) : option str :=
+  if c_first c then first_with_bit b g else first_with_bit b (rev g).
+
+Fixpoint flagname_loop_c (c : cfg) (grp : option group) (bits : list Z) (acc : list str) : option (list str) :=
+  match bits with
+  | [] => Some acc
+  | b :: t =>
+      match grp with
+      | None => None
+      | Some g => flagname_loop_c c grp t (match label_with_bit c b g with Some l => acc ++ [l] | None => acc end)
+      end
+  end.
+
+Definition flagname_c (c : cfg) (m : table) (g : str) (v : Z) : res :=
+  if in_u64 v then
+    match flagname_loop_c c (dget (norm (c_upper_group c) g) m) (set_bits_c c v) [] with
+    | Some r => RNames r
+    | None => RKeyError
+    end
+  else ROther.
+
+Definition flagexist_c (c : cfg) (m : table) (g : str) (labels : list str) (fe we : bool) : res :=
+  let ls := map (norm (c_upper_labels c)) labels in
+  let G := norm (c_upper_group c) g in
+  let f := has G m in
+  let which := match dget G m with
+               | Some gr => map (fun l => has l gr) ls
+               | None => map (fun _ => false) ls
+               end in
+  let l := f && (if c_exist_all c then forallb (fun x => x) which else existsb (fun x => x) which) in
+  RBools (l :: (if fe then [f] else []) ++ (if we then which else [])).
+
+Definition load_c (c : cfg) : list row -> list arow -> option table := load (c_load_upper c).
+
+Definition model_call_c (c : cfg) (m : table) (k : call) : res :=
+  match k with
+  | KVal g ls => flagval_c c m g ls
+  | KName g v cc => concat_res cc (flagname_c c m g v)
+  | KExist g ls fe we => flagexist_c c m g ls fe we
+  | KVNV g v => match flagname_c c m g v with RNames ns => flagval_c c m g ns | r => r end
+  | KNVN g ls => match flagval_c c m g ls with RVal v => flagname_c c m g v | r => r end
+  end.
+
+Definition call_verdict_c (c : cfg) (wf : bool) (m : table) (rows : list row) (aliases : list arow) (ce : call * res) : Z :=
+  let (k, expect) := ce in
+  (if res_eqb (model_call_c c m k) expect then 0 else 1)
+  + (if wf then
+       match spec_call rows aliases k with
+       | Some s => if res_eqb (res_upper s) (res_upper expect) then 0 else 2
+       | None => 0
+       end
+     else 0).
+
+(* verdict of the load, then one verdict per call -- as call_verdicts, for the parametrised model *)
+Definition call_verdicts_c (c : cfg) (rows : list row) (aliases : list arow) (loaded : Z) (calls : list (call * res)) : list Z :=
+  let wf := wf_file rows aliases in
+  match load_c c rows aliases with
+  | None => [(if loaded =? 1 then 0 else 1) + (if wf && negb (loaded =? 0) then 2 else 0)]
+  | Some m =>
+      if loaded =? 0 then 0 :: map (call_verdict_c c wf m rows aliases) calls
+      else [1 + (if wf then 2 else 0)]
+  end.
